@@ -1,10 +1,132 @@
-(* C11 - placeholder while the proofs are being written *)
-From Coq Require Import String List.
-From CBI Require Import Model.C11 Model.C11sh Spec.C11.
+(* C11 — -D/-I/-isystem/-include are extracted from any command line, robustly.
+   Only statements; each is closed by [exact] and its assumptions are printed.
+
+   parse_args   = Model/C11.v : config.ArgumentParser.parse_args (argparse.parse_known_args over the
+                  option table regenerated from the source, Gen/C11_tables.v), default pass
+   scan_S       = Spec/C11.v  : the scanner the property describes
+   safe         = Spec/C11safe.v : the domain of the proof; its conjuncts are refuted one by one below
+   split_string / quote_join = Model/C11sh.v : shlex.split / shlex.join                              *)
+From Coq Require Import Ascii String Bool List.
+From CBI Require Import Lib.C11_types Gen.C11_tables Model.C11 Model.C11sh Spec.C11 Spec.C11safe Spec.C11safe_more
+                        Proofs.C11 Proofs.C11sh.
 Import ListNotations.
 Local Open Scope string_scope.
 
+(* PARTIAL (the full statement has no [safe] hypothesis; it is refuted class by class below):
+   on every safe argument vector, of any length, the parser returns normally and the three lists
+   are exactly the scanner's, in the scanner's order. *)
+Theorem C11_safe_domain : forall argv : list string,
+  safe argv = true ->
+  (exists a, parse_args argv = ROk a) /\ lists_of (parse_args argv) = Some (some3 (scan_S argv)).
+Proof. exact safe_domain. Qed.
+Print Assumptions C11_safe_domain.
+
+(* one closed witness per conjunct of [safe]: the guard cannot silently become vacuous *)
+Definition differs (argv : list string) : Prop :=
+  lists_of (parse_args argv) <> Some (some3 (scan_S argv)).
+
+Theorem C11_unsafe_refuted_attached_long :
+  exists argv, existsb cl_attached_long argv = true /\ differs argv.
+Proof. exists ["-isystem/d"]. split; [reflexivity|]. vm_compute. discriminate. Qed.
+Print Assumptions C11_unsafe_refuted_attached_long.
+
+Theorem C11_unsafe_refuted_eq_value :
+  exists argv, existsb cl_eq_value argv = true /\ differs argv.
+Proof. exists ["-I=d"]. split; [reflexivity|]. vm_compute. discriminate. Qed.
+Print Assumptions C11_unsafe_refuted_eq_value.
+
+Theorem C11_unsafe_refuted_dashdash_value :
+  exists argv, existsb cl_dashdash_value argv = true /\ differs argv.
+Proof. exists ["-D--"]. split; [reflexivity|]. vm_compute. discriminate. Qed.
+Print Assumptions C11_unsafe_refuted_dashdash_value.
+
+Theorem C11_unsafe_refuted_abbrev :
+  exists argv, existsb cl_abbrev argv = true /\ differs argv.
+Proof. exists ["-is"; "d"]. split; [reflexivity|]. vm_compute. discriminate. Qed.
+Print Assumptions C11_unsafe_refuted_abbrev.
+
+(* the abbreviation -i is ambiguous: parser.error, SystemExit(2) *)
+Theorem C11_unsafe_refuted_abbrev_exit :
+  exists argv, existsb cl_abbrev argv = true /\ parse_args argv = RExit.
+Proof. exists ["-DX"; "-i"]. split; reflexivity. Qed.
+Print Assumptions C11_unsafe_refuted_abbrev_exit.
+
+Theorem C11_unsafe_refuted_dashdash :
+  exists argv, existsb cl_dashdash argv = true /\ differs argv.
+Proof. exists ["-DA"; "--"; "-DB"]. split; [reflexivity|]. vm_compute. discriminate. Qed.
+Print Assumptions C11_unsafe_refuted_dashdash.
+
+(* a separate value that begins with '-': ArgumentError, caught; everything from there on is lost *)
+Theorem C11_unsafe_refuted_dash_value :
+  exists argv, forallb tok_safe argv = true /\ safe argv = false /\ differs argv /\
+               exists a, parse_args argv = RWarned a.
+Proof.
+  exists ["-I"; "-d"; "-DX"]. split; [reflexivity|]. split; [reflexivity|]. split.
+  - vm_compute. discriminate.
+  - eexists. vm_compute. reflexivity.
+Qed.
+Print Assumptions C11_unsafe_refuted_dash_value.
+
+(* a value-taking flag as the last argument: the lists agree but the parse ends in the warning branch *)
+Theorem C11_unsafe_refuted_missing_value :
+  exists argv, forallb tok_safe argv = true /\ safe argv = false /\ ~ (exists a, parse_args argv = ROk a).
+Proof.
+  exists ["-DX"; "-include"]. split; [reflexivity|]. split; [reflexivity|].
+  intros [a H]. vm_compute in H. discriminate.
+Qed.
+Print Assumptions C11_unsafe_refuted_missing_value.
+
+(* with the generated table an ArgumentError never leaves parse_args (the second repair) *)
+Theorem C11_argument_error_contained : forall argv : list string, parse_args argv <> RRaise.
+Proof. exact never_raises. Qed.
+Print Assumptions C11_argument_error_contained.
+
+(* order: the scanner is a homomorphism at every point where no flag awaits its value (all argv) ... *)
+Theorem C11_order_S : forall l1 l2 : list string,
+  complete l1 = true -> scan_S (l1 ++ l2) = app3 (scan_S l1) (scan_S l2).
+Proof. exact scan_app. Qed.
+Print Assumptions C11_order_S.
+
+(* ... and so is the parser.  PARTIAL: within [safe]. *)
+Theorem C11_order_partial : forall l1 l2 : list string,
+  closed l1 = true -> safe (l1 ++ l2) = true ->
+  exists a1 a2, lists_of (parse_args l1) = Some a1 /\ lists_of (parse_args l2) = Some a2 /\
+                lists_of (parse_args (l1 ++ l2)) = Some (app3v a1 a2).
+Proof. exact parse_order. Qed.
+Print Assumptions C11_order_partial.
+
+(* unknown options are neutral: for the scanner, any group of unrecognised tokens at any complete point (all argv) ... *)
+Theorem C11_unknown_neutral_S : forall (l1 e l2 : list string),
+  complete l1 = true -> forallb unrecognised e = true -> scan_S (l1 ++ e ++ l2) = scan_S (l1 ++ l2).
+Proof. exact neutral_S. Qed.
+Print Assumptions C11_unknown_neutral_S.
+
+(* ... and for the parser every entry of the generated catalogue (harness/c11_catalogue.py), inserted at any
+   closed point of any safe vector, keeps the vector safe and the three lists unchanged.  PARTIAL: within [safe]. *)
+Theorem C11_unknown_neutral_partial : forall (l1 l2 e : list string),
+  In e c11_catalogue -> closed l1 = true -> safe (l1 ++ l2) = true ->
+  safe (l1 ++ e ++ l2) = true /\
+  lists_of (parse_args (l1 ++ e ++ l2)) = lists_of (parse_args (l1 ++ l2)).
+Proof. exact neutral_catalogue. Qed.
+Print Assumptions C11_unknown_neutral_partial.
+
+(* the `command` string and the `arguments` array are equivalent: for every argv over all byte values *)
+Theorem C11_shlex_roundtrip : forall argv : list string, split_string (quote_join argv) = inr argv.
+Proof. exact split_quote_join. Qed.
+Print Assumptions C11_shlex_roundtrip.
+
+(* non-vacuity: a safe vector with both spellings of all four options, values with '=', quotes and blanks,
+   and a dozen catalogue options around them; an insertion point; the command string form *)
+Definition C11_example : list string :=
+  ["-O2"; "-g3"; "-DX"; "-D"; "FOO=""a b"""; "-ccbin"; "g++"; "-Iinc"; "-I"; "../x y"; "-MF"; "x.d";
+   "-isystem"; "/opt/sys"; "-std=c++17"; "-include"; "pre fix.h"; "-Wl,-rpath=/x"; "-fopenmp=libomp";
+   "-c"; "a.c"; "-o"; "a.o"; "-O"; "-Xlinker"; "--no-undefined"].
 Example C11_nonvacuous :
-  lists_of (parse_args ["-DX"; "-g3"; "-I"; "inc"; "-MF"; "x.d"; "-include"; "f.h"; "a.c"])
-  = Some ([Some "X"], [Some "inc"], [Some "f.h"]).
-Proof. vm_compute. reflexivity. Qed.
+  safe C11_example = true /\
+  lists_of (parse_args C11_example)
+    = Some ([Some "X"; Some "FOO=""a b"""], [Some "inc"; Some "../x y"; Some "/opt/sys"], [Some "pre fix.h"]) /\
+  closed (firstn 5 C11_example) = true /\
+  existsb (fun e => if list_eq_dec string_dec e ["-cxx-isystem"; "/opt/inc"] then true else false) c11_catalogue = true /\
+  Nat.leb 150 (length c11_catalogue) = true /\
+  split_string (quote_join C11_example) = inr C11_example.
+Proof. vm_compute. repeat split. Qed.
